@@ -65,11 +65,23 @@ def _and_fair(x):
     return ('and', x, FAIR)
 
 
+# D15 switch: when False, the value of a quantified subformula is NOT
+# conjoined with `fair` where it is used as an atom (what a reduction that
+# keeps "A g holds vacuously where no fair path starts" would do)
+_OPQ_FAIR = [True]
+
+
+def _opq(x):
+    return ('and', x, FAIR) if _OPQ_FAIR[0] else x
+
+
 def nf_ctl(t, atom=_and_fair):
     """CTL get_equivalent_non_fair_formula, transcribed."""
     op = t[0]
-    if op in ('ap', 'bool', 'opq'):
-        return atom(t[1] if op == 'opq' else t)
+    if op == 'opq':
+        return _opq(t[1])
+    if op in ('ap', 'bool'):
+        return atom(t)
     if op in BOOLEAN:
         return (op,) + tuple(nf_ctl(c, atom) for c in t[1:])
     g = t[1]
@@ -140,7 +152,7 @@ def _generic_nf(t):
     if op in ('ap', 'bool'):
         return _and_fair(t)
     if op == 'opq':
-        return _and_fair(t[1])
+        return _opq(t[1])
     return (op,) + tuple(_generic_nf(c) for c in t[1:])
 
 
@@ -168,16 +180,25 @@ def vq(t):
     return ('E', ('and', FAIR, sf))
 
 
-def m_ctls(t):
+def m_ctls(t, quantified_and_fair=True):
     """Model of CTLS.modelcheck(K, t, F=...) as one unconstrained CTL* tree
-    over the label FAIR."""
+    over the label FAIR.  quantified_and_fair=False gives the variant used to
+    tell finding D15 from D7 (see known_findings.json)."""
+    _OPQ_FAIR[0] = quantified_and_fair
+    try:
+        return _m_ctls(t)
+    finally:
+        _OPQ_FAIR[0] = True
+
+
+def _m_ctls(t):
     op = t[0]
     if op in ('ap', 'bool'):
         return _and_fair(t)
     if op in ('A', 'E'):
-        return _and_fair(vq(t))
+        return _opq(vq(t))
     if op in BOOLEAN:
-        return (op,) + tuple(m_ctls(c) for c in t[1:])
+        return (op,) + tuple(_m_ctls(c) for c in t[1:])
     raise ValueError('path formula at state level')
 
 
